@@ -192,6 +192,8 @@ def correspondence(ctx):
             c.error = "session %d crashed the harness: %r" % (i, ex)
             return c
         nmsg += s.sent
+        if len(s.gen.held) >= 2:
+            c.count("self-check:sessions-in-which-the-peer-obtained-two-or-more-references")
         lines.append(s.final_model_line)
         impls.append(s.final_impl)
         meta.append((i, s.cfg_text, desc, s.hits))
@@ -199,6 +201,11 @@ def correspondence(ctx):
         if time.time() - t0 > ctx.budget(70, 700):
             c.count("stopped-early-at-session", i)
             break
+    ok_sessions = c.distribution.get("self-check:sessions-in-which-the-peer-obtained-two-or-more-references", 0)
+    if lines and ok_sessions * 2 < len(lines):
+        c.error = ("harness self-check failed: in only %d of %d sessions did the scripted peer obtain references through the "
+                   "exposed interface (the canary service or the recorder is broken)" % (ok_sessions, len(lines)))
+        return c
     try:
         outs = run_driver(lines, exe="drv_handlers")
     except DriverError as ex:
